@@ -35,7 +35,6 @@ NA = {
     "C23": "GF(p) arithmetic and factorisation: number-theoretic algorithms with randomised steps; value-level.",
     "C24": "dense matrix algebra vs exact linear algebra: pivoting and fraction-free updates are value-dependent.",
     "C25": "CSR canonical format and agreement with dense: index-array contents and loop arithmetic; no bound analysis for these C++ units is in reach (goto-cc cannot take libstdc++ code).",
-    "C26": "matrix-expression value preservation and predicate soundness: value-level (its tribool visitors are covered by C34's definite-assignment rule, its compare misuse by C02's R2.4).",
     "C27": "pointwise set semantics: interval endpoint arithmetic and membership are values.",
     "C28": "boolean simplification preserves truth: depends on which run-time arguments are complementary/equal.",
     "C30": "solve returns exactly the solution set: closed-form root formulas; value-level.",
